@@ -48,6 +48,7 @@ fn main() {
         "c05-replay" => c05::replay(rest),
         "c05-sources" => c05::sources(rest),
         "c05-libbuild" => c05::libbuild(rest),
+        "c05-libdump" => c05::libdump(rest),
         "c05-record" => c05::record(rest),
         "c11-record" => c11::record(rest),
         "c06-run" => c06::run(rest),
